@@ -183,11 +183,23 @@ private theorem rep_init (i : Nat) : rep (Spec.init i) false = init i := rfl
 
 /-! ### the refinement theorem -/
 
-/-- **Refinement.** For every interval `i` (0 included) and EVERY operation history over
-{start, reset, stop, advance, await, advance-then-call-before-the-task-ran, probe} – whether or not it
-keeps the property's precondition – every await and probe of the modelled `Timer` (struct + spawned
-interval task + both channels) observes exactly what the abstract specification `spec` prescribes, and
-with the same ghost variables (time of the last start / reset, stopped flag). -/
+/-- **Refinement (normal form).** For every interval `i` (0 included) and EVERY operation history over
+{start, reset, stop, advance, await, advance-then-call-before-the-task-ran, two / three calls back to back
+(`burst2`, `burst3`), probe} – whether or not it keeps the property's precondition – every await and probe of
+the modelled `Timer` (struct + spawned interval task + both channels) observes exactly what `spec` prescribes,
+and with the same ghost variables (time of the last start / reset, stopped flag).
+
+What this is and is not: `Spec` is the QUOTIENT of the model's settled reachable states (`rep` is injective on
+well-formed states and every settled state is a `rep`, `timer_state_refines_spec`), i.e. a normal form of the
+model, written after the code: it carries the code's accidents (`stale`: the tick in a blocked `send` survives
+`reset`; `Spec.calls` collapsing `reset, reset`; `await` answering timeout when the tick is due exactly when the
+patience ends).  The theorem is a bisimulation between the model and that normal form - it makes the model
+easy to reason about, it is NOT a comparison with an independently written specification, and outside the
+property's precondition it adds no assurance about the code (there `Spec` = model = transcription of the code,
+tied by the correspondence run only).  What is written from the property, independently of model and code, is
+`GoodEvent` below with `no_early_tick` / `no_tick_after_stop`.  The histories are lists of `Op` - the
+compositions the harness executes (every op ends settled, at most three calls back to back, an await or a
+burst never starts un-settled) - not arbitrary schedules of the primitive steps call / clock / settle. -/
 theorem timer_refines_spec (i : Nat) (ops : List Op) :
     (runT true (init i) ops).2 = ((Spec.init i).run ops).2 ∧
     (runT true (init i) ops).2.map (·.obs) = spec i ops := by
@@ -565,7 +577,10 @@ theorem silent_until_start : ∀ (ops : List Op) (s : State), Silent s → ops.a
         exact hs.2 v t ho
     · exact ih _ hs.1 hn.2 e he
 
-/-- `stop_and_reset` leaves the timer silent, in every state (running, blocked, already stopped) … -/
+/-- `stop_and_reset` leaves the timer silent, in every state (running, blocked, already stopped) …
+(this, `stop_twice` and `start_rearms` are one unfolding of the model's definitions: sanity lemmas about the
+transcription, no evidence about the code by themselves; with `silent_until_start` they are why the oracle may
+judge "no tick while stopped" on EVERY history and resume full judging at a start / stop, c20.rs `oracle`) -/
 theorem stop_silences (s : State) : Silent (stepT true s .stop).1 ∧ (stepT true s .stop).1.stopped = true ∧
     alive (stepT true s .stop).1 = 0 := by
   simp [Silent, stepT, callStop, settle, alive]
